@@ -1,3 +1,4 @@
 import Sonic.Go.Prelude
 import Sonic.Props.C10
 import Sonic.Props.C19
+import Sonic.Props.C18
